@@ -36,6 +36,30 @@ def _work(args):
             comp_env.globals["g"] = "COMPILE-TIME-GLOBAL"
             comp_env.compile_templates(t, zip=None if mode == "dir" else mode, log_function=lambda m: None)
             targets[mode] = t
+        # one ModuleLoader shared by two environments with different globals: A loads, B loads, A renders
+        for mode, path in targets.items():
+            ml = ModuleLoader(path)
+            envA, _ = jrun.make_env(case)
+            envA.loader = ml
+            envB, _ = jrun.make_env(case)
+            envB.loader = ml
+            envB.globals["g"] = "OTHER-ENVIRONMENT"
+            envB.filters["default"] = lambda *a, **k: "OTHER-ENVIRONMENT"
+            try:
+                envA.get_template(case["main"])
+                envB.get_template(case["main"])
+                for tn in case["tpls"]:
+                    envB.get_template(tn)
+            except Exception:  # noqa
+                pass
+            for di, obs in obs_by_d.items():
+                if obs["err"] == "EXCLUDED":
+                    continue
+                real = jrun.real_render(case, di, env=envA)
+                n += 1
+                m = jrun.compare(obs, real)
+                if m is not None:
+                    out.append({"case": case["id"], "d": di, "what": f"[{mode}/shared-loader] {m}", "src": srcs})
         for mode, path in targets.items():
             for lname in ("module", "choice"):
                 env, _ = jrun.make_env(case)
@@ -59,6 +83,32 @@ def _work(args):
 def run(ck):
     quick = ck.tier == "quick"
     cases = jgen.corpus(ck.seed + 31, *((40, 110, 110, 20) if quick else (800, 3000, 3000, 500)))
+    # template names are opaque keys: sets whose names differ only by ./ , // or x/../ must stay apart
+    import json as _json
+    extra = []
+    for c in jgen.module_cases(ck.seed * 31 + 311, 60 if quick else 1500):
+        names = [n_ for n_ in c["tpls"] if n_ not in ("main", "show")]
+        if len(names) < 2:
+            continue
+        ren = dict(zip(names, ["t", "./t", "w/../t"]))
+        blob = _json.dumps({"tpls": c["tpls"], "datas": c["datas"]})
+        tpls = {}
+        for old, t_ in c["tpls"].items():
+            body = _json.loads(_json.dumps(t_["body"]))
+            for node in J.walk(body):
+                if node.get("k") == "const" and node["v"].get("t") == "str" and J.seg_text(node["v"]["s"]) in ren:
+                    node["v"] = J.vstr(ren[J.seg_text(node["v"]["s"])], "lit")
+            tpls[ren.get(old, old)] = J.template(body, t_["auto"])
+        datas = []
+        for d_ in c["datas"]:
+            d_ = dict(d_)
+            if "tplname" in d_ and J.seg_text(d_["tplname"]["s"]) in ren:
+                d_["tplname"] = J.vstr(ren[J.seg_text(d_["tplname"]["s"])])
+            datas.append(d_)
+        extra.append(J.make_case(0, tpls, "main", datas, globals_={"g": J.vstr("G&")}, tglobals=c.get("tglobals")))
+    for c in extra:
+        c["id"] = len(cases) + 1
+        cases.append(c)
     obs, r = jrun.spec_results("C31", cases, name="sets", timeout=3000)
     ck.add_tlc(r, f"Jinja.tla ({len(cases)} template sets)")
     by_case = {}
